@@ -1326,12 +1326,15 @@ macro_rules! skip_iterator_iterator_impl {
                 let value = self.peek()?;
                 // Increment the index so we know not to re-fetch it.
                 self.byte.index += 1;
-                // NOTE: Only increment the count if it's not contiguous, otherwise,
-                // this is an unnecessary performance penalty. We also need
-                // to check if it's a digit, which adds on additional cost but
-                // there's not much else we can do. Hopefully the previous inlining
-                // checks will minimize the performance hit.
-                if !Self::IS_CONTIGUOUS && self.is_digit(*value) {
+                // NOTE: Only increment the count if the buffer is not contiguous,
+                // otherwise, this is an unnecessary performance penalty: the count
+                // is then the cursor. This must be the contiguity of the buffer,
+                // not of this component: `current_count` falls back to the buffer's
+                // digit counts when only other components have digit separators.
+                // We also need to check if it's a digit, which adds on additional
+                // cost but there's not much else we can do. Hopefully the previous
+                // inlining checks will minimize the performance hit.
+                if !<Bytes<'a, FORMAT> as Iter<'a>>::IS_CONTIGUOUS && self.is_digit(*value) {
                     self.increment_count();
                 }
                 Some(value)
